@@ -161,6 +161,8 @@ func (k *KittyImage) Resize(w int, h int) {
 		wc.Close()
 		b := make([]byte, 4096)
 		atomicStore(&k.uploaded, false)
+		// drop an earlier encoding that was never transmitted
+		k.buf.Reset()
 		for buf.Len() > 0 {
 			n, err := buf.Read(b)
 			if err == io.EOF {
